@@ -121,7 +121,8 @@ Qed.
 (* ---------------------------------------------------------------- value_eq *)
 Section WithN.
 Variable N : numops.
-Variable P : program.
+(* code of the fragment calls nothing, so the two sides may even run under different programs *)
+Variables P P' : program.
 
 Lemma eq_lists_app : forall (v1 v2 : value -> value -> res bool),
   (forall a b r, v1 a b = ROk r -> v2 a b = ROk r) ->
@@ -151,28 +152,28 @@ Qed.
 (* they change nothing in the store, and are insensitive to the temporaries and the extra cells *)
 Definition fe_eval (n : nat) : Prop :=
   forall e s s' mu g C v mu1, ok_expr X e = true -> agree X s s' ->
-    eval N P n s mu C e = ROk (v, mu1) -> mu1 = mu /\ eval N P n s' (mu ++ g) C e = ROk (v, mu ++ g).
+    eval N P n s mu C e = ROk (v, mu1) -> mu1 = mu /\ eval N P' n s' (mu ++ g) C e = ROk (v, mu ++ g).
 
 Definition fe_evals (n : nat) : Prop :=
   forall es s s' mu g C vs mu1, forallb (ok_expr X) es = true -> agree X s s' ->
-    evals N P n s mu C es = ROk (vs, mu1) -> mu1 = mu /\ evals N P n s' (mu ++ g) C es = ROk (vs, mu ++ g).
+    evals N P n s mu C es = ROk (vs, mu1) -> mu1 = mu /\ evals N P' n s' (mu ++ g) C es = ROk (vs, mu ++ g).
 
 Definition fe_cmp (n : nat) : Prop :=
   forall args s s' mu g C v0 ops v mu1, forallb (ok_expr X) args = true -> agree X s s' ->
     cmp_chain N P n s mu C v0 ops args = ROk (v, mu1) ->
-    mu1 = mu /\ cmp_chain N P n s' (mu ++ g) C v0 ops args = ROk (v, mu ++ g).
+    mu1 = mu /\ cmp_chain N P' n s' (mu ++ g) C v0 ops args = ROk (v, mu ++ g).
 
 Definition fe_bool (n : nat) : Prop :=
   forall args s s' mu g C u v mu1, forallb (ok_expr X) args = true -> agree X s s' ->
     bool_chain N P n s mu C u args = ROk (v, mu1) ->
-    mu1 = mu /\ bool_chain N P n s' (mu ++ g) C u args = ROk (v, mu ++ g).
+    mu1 = mu /\ bool_chain N P' n s' (mu ++ g) C u args = ROk (v, mu ++ g).
 
 (* one bind step: the sub-evaluation succeeded; transport it with the induction hypothesis *)
 Ltac bind_in H :=
   match type of H with
   | rbind ?c _ = ROk _ =>
       let E := fresh "E" in
-      destruct c as [?| |] eqn:E; cbn [rbind] in H; [|discriminate H|discriminate H]
+      destruct c as [?| |] eqn:E; cbn [rbind] in H; [cbn [rbind]|discriminate H|discriminate H]
   end.
 
 Ltac split_pairs :=
@@ -186,7 +187,7 @@ Proof.
   - unfold fe_eval, fe_evals, fe_cmp, fe_bool. split; [|split; [|split]]; intros; discriminate.
   - assert (Hone : forall a s s' mu g C v mu1 (k : value * store -> res (value * store)),
               ok_expr X a = true -> agree X s s' -> eval N P n s mu C a = ROk (v, mu1) ->
-              mu1 = mu /\ rbind (eval N P n s' (mu ++ g) C a) k = k (v, mu ++ g)).
+              mu1 = mu /\ rbind (eval N P' n s' (mu ++ g) C a) k = k (v, mu ++ g)).
     { intros a s s' mu g C v mu1 k Hok Ha E. destruct (IHe _ _ _ _ g _ _ _ Hok Ha E) as [-> E']. rewrite E'. auto. }
     split; [|split; [|split]].
     + (* eval *)
@@ -227,7 +228,7 @@ Proof.
       * (* EIf *)
         apply andb_true_iff in Hok as [Hk12 Hk3]. apply andb_true_iff in Hk12 as [Hk1 Hk2].
         bind_in H. split_pairs. destruct (IHe _ _ _ _ g _ _ _ Hk1 Ha E) as [-> E']. rewrite E'. cbn [rbind].
-        bind_in H. destruct b0; eapply IHe; eauto.
+        bind_in H. match type of H with (if ?t then _ else _) = _ => destruct t end; eapply IHe; eauto.
       * (* ETuple *)
         bind_in H. split_pairs. destruct (IHs _ _ _ _ g _ _ _ Hok Ha E) as [-> E']. rewrite E'. cbn [rbind].
         inversion H; subst; auto.
@@ -288,20 +289,179 @@ Proof.
       cbn [forallb] in Hok. apply andb_true_iff in Hok as [Hk1 Hk2].
       destruct (is_ordering o).
       * bind_in H. bind_in H. split_pairs. destruct (IHe _ _ _ _ g _ _ _ Hk1 Ha E0) as [-> E0']. rewrite E0'. cbn [rbind].
-        bind_in H. destruct (cmp_test N o n0 n1); [|inversion H; auto].
+        bind_in H. match type of H with (if ?t then _ else _) = _ => destruct t end; [|inversion H; auto].
         destruct ops'; [inversion H; auto|]. eapply IHc; eauto.
       * bind_in H. split_pairs. destruct (IHe _ _ _ _ g _ _ _ Hk1 Ha E) as [-> E']. rewrite E'. cbn [rbind].
         bind_in H. rewrite (value_eq_app _ _ g _ _ _ E0). cbn [rbind].
-        destruct (match o with CNe => negb b | _ => b end); [|inversion H; auto].
+        match type of H with (if ?t then _ else _) = _ => destruct t end; [|inversion H; auto].
         destruct ops'; [inversion H; auto|]. eapply IHc; eauto.
     + (* bool_chain *)
       intros args s s' mu g C u v mu1 Hok Ha H. rewrite bool_chain_S in *. unfold bool_chain_body in *.
       destruct args as [|e r]; [inversion H; auto|].
       cbn [forallb] in Hok. apply andb_true_iff in Hok as [Hk1 Hk2].
       bind_in H. split_pairs. destruct (IHe _ _ _ _ g _ _ _ Hk1 Ha E) as [-> E']. rewrite E'. cbn [rbind].
-      bind_in H. destruct (Bool.eqb b u); [|inversion H; auto].
+      bind_in H. match type of H with (if ?t then _ else _) = _ => destruct t end; [|inversion H; auto].
       destruct r; [inversion H; auto|]. eapply IHb; eauto.
 Qed.
+
+
+Lemma frame_eval : forall n e s s' mu g C v mu1, ok_expr X e = true -> agree X s s' ->
+  eval N P n s mu C e = ROk (v, mu1) -> mu1 = mu /\ eval N P' n s' (mu ++ g) C e = ROk (v, mu ++ g).
+Proof. intro n. destruct (frame_expr_all n) as (H & _). exact H. Qed.
+
+(* ---------------------------------------------------------------- statements of the fragment *)
+Lemma orel_refl : forall s s', agree X s s' -> orel X s' (ONormal s) (ONormal s').
+Proof. intros s s' H. split; [exact H | apply keep_refl]. Qed.
+
+Lemma orel_keep : forall s' s1' o o', keep X s' s1' -> orel X s1' o o' -> orel X s' o o'.
+Proof.
+  intros s' s1' o o' Hk H. destruct o, o'; cbn in *; try contradiction; auto.
+  destruct H as [Ha Hk2]. split; [exact Ha | eapply keep_trans; eauto].
+Qed.
+
+Lemma as_list_loc : forall mu v l vs, as_list mu v = ROk (l, vs) -> v = VList l /\ store_get mu l = Some vs.
+Proof.
+  intros mu v l vs H. destruct v; try discriminate. cbn in H.
+  destruct (store_get mu l0) eqn:E; inversion H; subst. auto.
+Qed.
+
+Definition fs_exec (n : nat) : Prop :=
+  forall st s s' mu g C o mu1, ok_stmt X st = true -> agree X s s' ->
+    exec N P n s mu C st = ROk (o, mu1) ->
+    exists o', exec N P' n s' (mu ++ g) C st = ROk (o', mu1 ++ g) /\ orel X s' o o' /\ shape mu1 = shape mu.
+
+Definition fs_block (n : nat) : Prop :=
+  forall b s s' mu g C o mu1, ok_block X b = true -> agree X s s' ->
+    exec_block N P n s mu C b = ROk (o, mu1) ->
+    exists o', exec_block N P' n s' (mu ++ g) C b = ROk (o', mu1 ++ g) /\ orel X s' o o' /\ shape mu1 = shape mu.
+
+Definition fs_for (n : nat) : Prop :=
+  forall body p l i s s' mu g C o mu1, ok_pat X p = true -> ok_block X body = true -> agree X s s' ->
+    for_loop N P n s mu C p l i body = ROk (o, mu1) ->
+    exists o', for_loop N P' n s' (mu ++ g) C p l i body = ROk (o', mu1 ++ g) /\ orel X s' o o' /\ shape mu1 = shape mu.
+
+Definition fs_idx (n : nat) : Prop :=
+  forall idx s s' mu g C cur v mu1, forallb (ok_expr X) idx = true -> agree X s s' ->
+    index_walk N P n s mu C cur idx v = ROk mu1 ->
+    index_walk N P' n s' (mu ++ g) C cur idx v = ROk (mu1 ++ g) /\ shape mu1 = shape mu.
+
+Lemma frame_stmt_all : forall n, fs_exec n /\ fs_block n /\ fs_for n /\ fs_idx n.
+Proof.
+  induction n as [|n (IHx & IHb & IHf & IHi)].
+  - unfold fs_exec, fs_block, fs_for, fs_idx. split; [|split; [|split]]; intros; discriminate.
+  - pose proof (frame_eval n) as FE.
+    split; [|split; [|split]].
+    + (* exec *)
+      intros st s s' mu g C o mu1 Hok Ha H. rewrite exec_S in *. unfold exec_body in *.
+      destruct st; cbn [ok_stmt] in Hok.
+      * (* SAssign *)
+        apply andb_true_iff in Hok as [Hp He].
+        bind_in H. split_pairs. destruct (FE _ _ _ _ g _ _ _ He Ha E) as [-> E']. rewrite E'. cbn [rbind].
+        destruct (bind_pat p v s) as [s1|] eqn:Eb; cbn [lift rbind] in H; [|discriminate H].
+        destruct (bind_pat_frame _ _ _ _ _ Hp Ha Eb) as (s1' & Eb' & Ha1 & Hk1).
+        rewrite Eb'. cbn [lift rbind]. inversion H; subst. eexists; split; [reflexivity|]. split; [split; assumption|reflexivity].
+      * (* SIndexAssign *)
+        apply andb_true_iff in Hok as [Hxi He]. apply andb_true_iff in Hxi as [Hx Hi].
+        bind_in H. split_pairs. destruct (FE _ _ _ _ g _ _ _ He Ha E) as [-> E']. rewrite E'. cbn [rbind].
+        rewrite <- (Ha x Hx). destruct (env_get s x) as [cur|]; [|discriminate H].
+        bind_in H. destruct (IHi _ _ _ _ g _ _ _ _ Hi Ha E0) as [E0' Hs]. rewrite E0'. cbn [rbind].
+        inversion H; subst. eexists; split; [reflexivity|]. split; [apply orel_refl, Ha | exact Hs].
+      * (* SIf1 *)
+        apply andb_true_iff in Hok as [Hc Hb].
+        bind_in H. split_pairs. destruct (FE _ _ _ _ g _ _ _ Hc Ha E) as [-> E']. rewrite E'. cbn [rbind].
+        bind_in H. match type of H with (if ?t then _ else _) = _ => destruct t end.
+        -- eapply IHb; eauto.
+        -- inversion H; subst. eexists; split; [reflexivity|]. split; [apply orel_refl, Ha | reflexivity].
+      * (* SIf *)
+        apply andb_true_iff in Hok as [Hct Hf]. apply andb_true_iff in Hct as [Hc Ht].
+        bind_in H. split_pairs. destruct (FE _ _ _ _ g _ _ _ Hc Ha E) as [-> E']. rewrite E'. cbn [rbind].
+        bind_in H. match type of H with (if ?t then _ else _) = _ => destruct t end; eapply IHb; eauto.
+      * (* SWhile *)
+        pose proof Hok as Hok0. apply andb_true_iff in Hok as [Hc Hb].
+        bind_in H. split_pairs. destruct (FE _ _ _ _ g _ _ _ Hc Ha E) as [-> E']. rewrite E'. cbn [rbind].
+        bind_in H. match type of H with (if ?t then _ else _) = _ => destruct t end.
+        -- bind_in H. split_pairs.
+           destruct (IHb _ _ _ _ g _ _ _ Hb Ha E1) as (o1' & E1' & Ho1 & Hs1). rewrite E1'. cbn [rbind].
+           destruct o0 as [s2|v2], o1' as [s2'|v2']; cbn [orel] in Ho1; try contradiction.
+           ++ destruct Ho1 as [Ha2 Hk2].
+              destruct (IHx (SWhile c body) _ _ _ g _ _ _ Hok0 Ha2 H) as (o' & Ex & Ho & Hs).
+              exists o'. split; [exact Ex|]. split; [eapply orel_keep; eauto | congruence].
+           ++ subst. inversion H; subst. eexists; split; [reflexivity|]. split; [reflexivity | exact Hs1].
+        -- inversion H; subst. eexists; split; [reflexivity|]. split; [apply orel_refl, Ha | reflexivity].
+      * (* SFor *)
+        apply andb_true_iff in Hok as [Hpi Hb]. apply andb_true_iff in Hpi as [Hp Hi].
+        bind_in H. split_pairs. destruct (FE _ _ _ _ g _ _ _ Hi Ha E) as [-> E']. rewrite E'. cbn [rbind].
+        bind_in H. split_pairs. rewrite (as_list_app _ g _ _ E0). cbn [rbind].
+        eapply IHf; eauto.
+      * (* SContext *)
+        apply andb_true_iff in Hok as [Hxe Hb]. apply andb_true_iff in Hxe as [Hx He].
+        bind_in H. split_pairs. destruct (FE _ _ _ _ g _ _ _ He Ha E) as [-> E']. rewrite E'. cbn [rbind].
+        destruct v; try discriminate H.
+        destruct x as [x|].
+        -- destruct (IHb _ _ _ _ g _ _ _ Hb (agree_set _ _ x (VCtx c) Ha) H) as (o' & Eb & Ho & Hs).
+           exists o'. split; [exact Eb|]. split; [|exact Hs].
+           eapply orel_keep; [|exact Ho]. apply keep_set. exact Hx.
+        -- eapply IHb; eauto.
+      * (* SAssert *)
+        bind_in H. split_pairs. destruct (FE _ _ _ _ g _ _ _ Hok Ha E) as [-> E']. rewrite E'. cbn [rbind].
+        bind_in H. match type of H with (if ?t then _ else _) = _ => destruct t end; [|discriminate H].
+        inversion H; subst. eexists; split; [reflexivity|]. split; [apply orel_refl, Ha | reflexivity].
+      * (* SEffect *)
+        bind_in H. split_pairs. destruct (FE _ _ _ _ g _ _ _ Hok Ha E) as [-> E']. rewrite E'. cbn [rbind].
+        inversion H; subst. eexists; split; [reflexivity|]. split; [apply orel_refl, Ha | reflexivity].
+      * (* SReturn *)
+        bind_in H. split_pairs. destruct (FE _ _ _ _ g _ _ _ Hok Ha E) as [-> E']. rewrite E'. cbn [rbind].
+        inversion H; subst. eexists; split; [reflexivity|]. split; [reflexivity | reflexivity].
+      * (* SPass *)
+        inversion H; subst. eexists; split; [reflexivity|]. split; [apply orel_refl, Ha | reflexivity].
+    + (* exec_block *)
+      intros b s s' mu g C o mu1 Hok Ha H. rewrite exec_block_S in *. unfold exec_block_body in *.
+      destruct b as [|st r].
+      * inversion H; subst. eexists; split; [reflexivity|]. split; [apply orel_refl, Ha | reflexivity].
+      * cbn [ok_block forallb] in Hok. apply andb_true_iff in Hok as [Hs Hr].
+        bind_in H. split_pairs.
+        destruct (IHx _ _ _ _ g _ _ _ Hs Ha E) as (o1' & E1' & Ho1 & Hs1). rewrite E1'. cbn [rbind].
+        destruct o0 as [s2|v2], o1' as [s2'|v2']; cbn [orel] in Ho1; try contradiction.
+        -- destruct Ho1 as [Ha2 Hk2].
+           destruct (IHb _ _ _ _ g _ _ _ Hr Ha2 H) as (o' & Ex & Ho & Hsh).
+           exists o'. split; [exact Ex|]. split; [eapply orel_keep; eauto | congruence].
+        -- subst. inversion H; subst. eexists; split; [reflexivity|]. split; [reflexivity | exact Hs1].
+    + (* for_loop *)
+      intros body p l i s s' mu g C o mu1 Hp Hb Ha H. rewrite for_loop_S in *. unfold for_loop_body in *.
+      destruct (store_get mu l) as [vs|] eqn:El; [|discriminate H].
+      rewrite (store_get_app _ g _ _ El).
+      destruct (nth_error vs i) as [x|].
+      * destruct (bind_pat p x s) as [s1|] eqn:Eb; cbn [lift rbind] in H; [|discriminate H].
+        destruct (bind_pat_frame _ _ _ _ _ Hp Ha Eb) as (s1' & Eb' & Ha1 & Hk1).
+        rewrite Eb'. cbn [lift rbind].
+        bind_in H. split_pairs.
+        destruct (IHb _ _ _ _ g _ _ _ Hb Ha1 E) as (o1' & E1' & Ho1 & Hs1). rewrite E1'. cbn [rbind].
+        destruct o0 as [s2|v2], o1' as [s2'|v2']; cbn [orel] in Ho1; try contradiction.
+        -- destruct Ho1 as [Ha2 Hk2].
+           destruct (IHf _ _ _ _ _ _ _ g _ _ _ Hp Hb Ha2 H) as (o' & Ex & Ho & Hsh).
+           exists o'. split; [exact Ex|]. split; [|congruence].
+           eapply orel_keep; [exact Hk1|]. eapply orel_keep; eauto.
+        -- subst. inversion H; subst. eexists; split; [reflexivity|]. split; [reflexivity | exact Hs1].
+      * inversion H; subst. eexists; split; [reflexivity|]. split; [apply orel_refl, Ha | reflexivity].
+    + (* index_walk *)
+      intros idx s s' mu g C cur v mu1 Hok Ha H. rewrite index_walk_S in *. unfold index_walk_body in *.
+      destruct idx as [|i rest]; [discriminate H|].
+      cbn [forallb] in Hok. apply andb_true_iff in Hok as [Hi Hr].
+      destruct rest as [|i2 rest].
+      * bind_in H. split_pairs. destruct (FE _ _ _ _ g _ _ _ Hi Ha E) as [-> E']. rewrite E'. cbn [rbind].
+        bind_in H. bind_in H. split_pairs. rewrite (as_list_app _ g _ _ E1). cbn [rbind].
+        destruct (as_list_loc _ _ _ _ E1) as [-> Eg].
+        match type of H with (if ?t then _ else _) = _ => destruct t end; [|discriminate H].
+        inversion H; subst. rewrite (store_set_app _ g _ _ _ _ Eg). split; [reflexivity | apply shape_store_set].
+      * bind_in H. split_pairs. destruct (FE _ _ _ _ g _ _ _ Hi Ha E) as [-> E']. rewrite E'. cbn [rbind].
+        bind_in H. bind_in H. split_pairs. rewrite (as_list_app _ g _ _ E1). cbn [rbind].
+        bind_in H. eapply IHi; eauto.
+Qed.
+
+Lemma frame_block : forall n b s s' mu g C o mu1, ok_block X b = true -> agree X s s' ->
+  exec_block N P n s mu C b = ROk (o, mu1) ->
+  exists o', exec_block N P' n s' (mu ++ g) C b = ROk (o', mu1 ++ g) /\ orel X s' o o' /\ shape mu1 = shape mu.
+Proof. intro n. destruct (frame_stmt_all n) as (_ & H & _). exact H. Qed.
 
 End WithN.
 End WithX.
